@@ -28,13 +28,13 @@ VARIABLES pc,         \* client program counter
           alive,      \* conn exists (TCP session to the server is open)
           idle,       \* conn sits in the bb8 idle queue
           bTx, bCopy, bData, bad, dirty,   \* pooler belief per conn
-          tTx, tCopy, tUnread, tDirt, last, \* backend truth per conn
+          tTx, tCopy, tUnread, tDirt, tPend, last, \* backend truth per conn (tPend: SET inside the open transaction)
           cmap,       \* cancel map: client -> conn
           viol        \* monitor: set of violation records
 
 cvars == <<pc, held, pend, nmsg>>
 bvars == <<alive, idle, bTx, bCopy, bData, bad, dirty>>
-tvars == <<tTx, tCopy, tUnread, tDirt, last>>
+tvars == <<tTx, tCopy, tUnread, tDirt, tPend, last>>
 vars  == <<cvars, bvars, tvars, cmap, viol>>
 
 \* Client messages (abstract kinds).
@@ -56,6 +56,7 @@ Init ==
   /\ dirty = [s \in Conns |-> FALSE]
   /\ tTx = [s \in Conns |-> "I"] /\ tCopy = [s \in Conns |-> "no"]
   /\ tUnread = [s \in Conns |-> FALSE] /\ tDirt = [s \in Conns |-> NONE]
+  /\ tPend = [s \in Conns |-> NONE]
   /\ last = [s \in Conns |-> NONE]
   /\ cmap = [c \in Clients |-> NONE]
   /\ viol = {}
@@ -82,6 +83,7 @@ Fresh(s) ==
   /\ dirty' = [dirty EXCEPT ![s] = FALSE]
   /\ tTx' = [tTx EXCEPT ![s] = "I"] /\ tCopy' = [tCopy EXCEPT ![s] = "no"]
   /\ tUnread' = [tUnread EXCEPT ![s] = FALSE] /\ tDirt' = [tDirt EXCEPT ![s] = NONE]
+  /\ tPend' = [tPend EXCEPT ![s] = NONE]
   /\ last' = [last EXCEPT ![s] = NONE]
 
 \* pool.get(): an idle connection if there is one, else a new one while below pool_size.
@@ -141,9 +143,15 @@ Exec(c, s, k, loops) ==
      /\ tTx' = [tTx EXCEPT ![s] = ntx]
      /\ tCopy' = [tCopy EXCEPT ![s] = ncopy]
      /\ tUnread' = [tUnread EXCEPT ![s] = unread]
+     \* SET outside a transaction takes effect at once; inside one it is pending until COMMIT
+     \* (kept) or ROLLBACK / error (dropped)
      /\ tDirt' = [tDirt EXCEPT ![s] =
                     IF k = "set" /\ tTx[s] = "I" /\ tCopy[s] = "no" THEN c
+                    ELSE IF k = "commit" /\ tTx[s] = "T" /\ tPend[s] # NONE THEN tPend[s]
                     ELSE IF handoff /\ ~unclean THEN NONE ELSE @]
+     /\ tPend' = [tPend EXCEPT ![s] =
+                    IF k = "set" /\ tTx[s] = "T" /\ tCopy[s] = "no" THEN c
+                    ELSE IF ntx = "I" THEN NONE ELSE @]
      /\ last' = [last EXCEPT ![s] = c]
      \* belief follows the last ReadyForQuery seen; CopyInResponse carries none
      /\ bTx' = [bTx EXCEPT ![s] = IF ncopy = "in" THEN @
@@ -151,7 +159,9 @@ Exec(c, s, k, loops) ==
                                   ELSE ntx # "I"]
      /\ bCopy' = [bCopy EXCEPT ![s] = IF two /\ ~loops THEN TRUE ELSE ncopy = "in"]
      /\ bData' = [bData EXCEPT ![s] = two /\ ~loops]
-     /\ dirty' = [dirty EXCEPT ![s] = @ \/ (k = "set" /\ ~bTx[s] /\ tCopy[s] = "no")]
+     \* cleanup_state: marked on every SET (deviation: only when believed outside a transaction)
+     /\ dirty' = [dirty EXCEPT ![s] = @ \/ (k = "set" /\ tCopy[s] = "no" /\ tTx[s] # "E"
+                                              /\ (~bTx[s] \/ "set_in_tx_not_marked" \notin Dev))]
 
 \* Release decision of the inner loop (client.rs: Q arm, S arm, c|f arm).
 ReleaseNow(s, k) ==
@@ -186,6 +196,7 @@ CleanupEffect(s) ==
   /\ tTx' = [tTx EXCEPT ![s] = IF bTx[s] THEN "I" ELSE @]
   /\ bTx' = [bTx EXCEPT ![s] = FALSE]
   /\ tDirt' = [tDirt EXCEPT ![s] = IF dirty[s] THEN NONE ELSE @]
+  /\ tPend' = [tPend EXCEPT ![s] = IF bTx[s] THEN NONE ELSE @]
   /\ dirty' = [dirty EXCEPT ![s] = FALSE]
   /\ tCopy' = [tCopy EXCEPT ![s] = IF sends THEN "no" ELSE @]
   /\ tUnread' = [tUnread EXCEPT ![s] = IF sends /\ tCopy[s] = "in" THEN FALSE ELSE @]
@@ -273,7 +284,7 @@ CleanHandoff == viol = {}
 \* C02 stated on the idle queue: whatever waits to be handed out is a clean session.
 IdleIsClean ==
   \A s \in Conns : alive[s] /\ idle[s] =>
-      tTx[s] = "I" /\ tCopy[s] = "no" /\ ~tUnread[s] /\ tDirt[s] = NONE
+      tTx[s] = "I" /\ tCopy[s] = "no" /\ ~tUnread[s] /\ tDirt[s] = NONE /\ tPend[s] = NONE
 
 \* C04: never more server connections than pool_size.
 Bounded == NAlive <= PoolSize
